@@ -887,3 +887,23 @@ class RandomConcreteBackend(ConcreteBackend):
         v = [self.rnd.randrange(lo, hi) for _ in range(int(length))]
         self.values[name] = v
         return self.np.array(v, dtype=int)
+
+
+
+class EnumContract(Contract):
+    """Bounded stand-in by exhaustive enumeration (tier E): the real functions of the
+    installed package are run on *every* discrete input within a stated bound (or a seeded
+    sample of it in the quick tier) and compared with an oracle written from the property
+    statement.  Used where the code is dict / string / sort plumbing over discrete values
+    (ids, anchors, flags) that the symbolic tiers cannot reach.  Never counted as proved."""
+
+    tier = "E"
+    bound = "unstated"
+    clauses = ()
+
+    def cases(self, cfg, seed, thorough):
+        raise NotImplementedError
+
+    def check_case(self, case, cfg):
+        """-> list of failed clause names ([] if all hold)"""
+        raise NotImplementedError
